@@ -240,7 +240,11 @@ def part_c(ctx):
         d = os.path.join(ctx.work, f"c10_{i}")
         os.makedirs(d)
         try:
-            p = vcfgen.make_indexed(d, "in", text, kind=r.choice(["tbi", "csi"]), bcf=r.random() < 0.3)
+            try:
+                p = vcfgen.make_indexed(d, "in", text, kind=r.choice(["tbi", "csi"]), bcf=r.random() < 0.3)
+            except Exception as e:  # noqa: BLE001  (htslib refusing the generated file says nothing about bio2zarr)
+                ctx.note(f"generator: htslib could not write / index a generated file: {type(e).__name__}")
+                continue
             icf_path, ref_path = os.path.join(d, "icf"), os.path.join(d, "ref.vcz")
             doc = dict(part="e2e", gen_seed=seed, records=len(case["recs"]), samples=len(case["samples"]),
                        infos=case["infos"], fmts=case["fmts"])
